@@ -11,7 +11,8 @@ dst = os.path.join(ROOT, "seeded", name)
 os.makedirs(dst, exist_ok=True)
 if "--no-copy" not in sys.argv:  # (a patch rebased by hand onto the current HEAD is already in place)
     for f in os.listdir(src):
-        shutil.copy(os.path.join(src, f), os.path.join(dst, f))
+        if os.path.isfile(os.path.join(src, f)) and os.path.getsize(os.path.join(src, f)) < 200000:
+            shutil.copy(os.path.join(src, f), os.path.join(dst, f))
 patch = os.path.join(dst, "patch.diff")
 scratch = f"/tmp/seedverify-{name}"
 subprocess.run(["git", "-C", "/repo", "worktree", "remove", "--force", scratch], capture_output=True)
